@@ -138,15 +138,18 @@ TruthOuts(s, w, utxo) == {o \in utxo : o \in DOMAIN s.reg /\ s.reg[o].seed = s.w
 \* after a scan: every chain output of the seed has a usable record of the right value;
 \* every Unspent record of the active account is on the chain; with del nothing on the
 \* chain stays reserved and no Unconfirmed record is left
+\* (refreshing is per account: a record of ANOTHER account that is Unconfirmed while its output is
+\* on the chain merely waits for that account's refresh - scan leaves it alone, and must not delete it)
 ScanEqualsTruth(s, w, utxo, del, h) ==
   LET O == s.w[w].outs  T == TruthOuts(s, w, utxo)
-      rec(o) == {k \in DOMAIN O : (k = s.reg[o].key \/ k = s.reg[o].key \o "+m") /\ O[k].v = s.reg[o].v} IN
+      rec(o) == {k \in DOMAIN O : (k = s.reg[o].key \/ k = s.reg[o].key \o "+m") /\ O[k].v = s.reg[o].v}
+      waits(k) == O[k].st = "Unconfirmed" /\ O[k].acct # s.w[w].active IN
   /\ \A o \in T : \E k \in rec(o) :
-        /\ O[k].st \in (IF del THEN {"Unspent"} ELSE {"Unspent", "Locked"})
+        /\ O[k].st \in (IF del THEN {"Unspent"} ELSE {"Unspent", "Locked"}) \/ waits(k)
         /\ O[k].cb = s.reg[o].cb
   /\ \A k \in DOMAIN O : (O[k].st = "Unspent" /\ O[k].acct = s.w[w].active) => OutId(s.w[w].seed, k) \in utxo
                                                                               \/ \E o \in T : k \in rec(o)
-  /\ del => \A k \in DOMAIN O : O[k].st # "Unconfirmed"
+  /\ del => \A k \in DOMAIN O : O[k].st = "Unconfirmed" => (waits(k) /\ \E o \in T : k \in rec(o))
 \* a freshly restored wallet holds exactly the truth, with the right height, maturity, account
 RestoredExact(s, w, utxo, hOf(_)) ==
   LET O == s.w[w].outs  T == TruthOuts(s, w, utxo) IN
